@@ -382,9 +382,9 @@ def iter {α : Type} (f : α → α) : Nat → α → α
   | 0, a => a
   | n + 1, a => iter f n (f a)
 
-/-- one step of the X axis: towards larger values iff stop > start -/
+/-- one step of the X axis: by `abs(spacing)`, towards larger values iff stop > start -/
 def xStep (range : List Fl) (x : Fl) : Fl :=
-  if isIncreasing range then fadd x (range.getD 2 ⟨false, 0⟩) else fsub x (range.getD 2 ⟨false, 0⟩)
+  if isIncreasing range then fadd x (fabs (range.getD 2 ⟨false, 0⟩)) else fsub x (fabs (range.getD 2 ⟨false, 0⟩))
 
 /-- SPEC of the X axis: value `i` is the start depth moved `i` times by the spacing (binary64 steps) -/
 def xSpec (range : List Fl) (n : Nat) : List Fl :=
